@@ -10,7 +10,10 @@ told to the protocols as `InnerTransportEvent`s over one bounded channel per pro
 
 * a queued `DialPeer` whose `dial` fails with anything but `AlreadyConnected` →
   `DialFailure{peer, []}` (commit `fix: transport manager reports a dial failure to the protocols
-  when a queued DialPeer command fails`); a failing queued `DialAddress` is only logged;
+  when a queued DialPeer command fails`); a queued `DialAddress` whose `dial_address` fails with
+  anything but `AlreadyConnected` → `DialFailure{peer, [address]}` for the peer of the trailing
+  `/p2p` (commit `fix: transport manager reports a dial failure to the protocols when a queued
+  DialAddress command fails`; the handle only queues addresses that end in `/p2p`);
 * before `next()` returns `TransportEvent::DialFailure` (a failed single-address dial or negotiation,
   or a dialed connection the manager rejects) or `TransportEvent::OpenFailure` (the last transport
   failed to open) every protocol is sent `DialFailure{peer, addresses}`: `try_send`, and when that
@@ -71,13 +74,15 @@ def Cmd.k : Cmd → Nat
 inductive Fate where
   /-- the manager started an attempt with this connection id (`open` / `dial` on the transport) -/
   | started (c : ConnId)
-  /-- `DialPeer` failed: `DialFailure{peer, []}` goes to every protocol -/
+  /-- the queued dial failed: `DialFailure{peer, []}` (`DialPeer`) / `DialFailure{peer, [address]}`
+  (`DialAddress`) goes to every protocol -/
   | failed
   /-- a dial of that peer is already in progress: nothing more is done -/
   | joined
   /-- `AlreadyConnected`: nothing is reported -/
   | connected
-  /-- `DialAddress` failed: only logged -/
+  /-- `DialAddress` failed for an address without trailing `/p2p`: only logged (unreachable: the
+  handle does not queue such addresses) -/
   | silent
   deriving DecidableEq, Repr
 
@@ -202,13 +207,9 @@ def handleDial (ps : PS) (j : Nat) (p : Peer) : PS × POut :=
         ({ ps with cmds := ps.cmds ++ [.dialPeer ps.nextReq j p], nextReq := ps.nextReq + 1 },
           { hres := some none })
 
-def isP2p : Proto → Bool
-  | .p2p _ => true
-  | _ => false
-
-/-- `TransportManagerHandle::dial_address`. -/
+/-- `TransportManagerHandle::dial_address`: the address must end in `/p2p/<peer>`. -/
 def handleDialAddress (ps : PS) (j : Nat) (a : Multiaddr) : PS × POut :=
-  if !a.any isP2p then (ps, { hres := some (some .nopeerid) })
+  if (lastPeer a).isNone then (ps, { hres := some (some .nopeerid) })
   else
     ({ ps with cmds := ps.cmds ++ [.dialAddress ps.nextReq j a], nextReq := ps.nextReq + 1 },
       { hres := some none })
@@ -234,15 +235,20 @@ def afterDialPeer (ps : PS) (k j : Nat) (p : Peer) (rest : List Cmd) (r : G × O
     | none => ({ ps with g := r.1, cmds := rest, done := ps.done ++ [⟨.dialPeer k j p, .joined⟩] }, [])
 
 /-- The `DialAddress` arm of `next()` after `self.dial_address(address)` returned `r`. -/
-def afterDialAddress (ps : PS) (k j : Nat) (a : Multiaddr) (rest : List Cmd) (r : G × Out) : PS :=
+def afterDialAddress (ps : PS) (k j : Nat) (a : Multiaddr) (rest : List Cmd) (r : G × Out) : PS × List Ev :=
   match r.2.res with
   | .err .alreadyConnected =>
-    { ps with g := r.1, cmds := rest, done := ps.done ++ [⟨.dialAddress k j a, .connected⟩] }
-  | .err _ => { ps with g := r.1, cmds := rest, done := ps.done ++ [⟨.dialAddress k j a, .silent⟩] }
+    ({ ps with g := r.1, cmds := rest, done := ps.done ++ [⟨.dialAddress k j a, .connected⟩] }, [])
+  | .err _ =>
+    match lastPeer a with
+    | some p =>
+      deliver { ps with cmds := rest, done := ps.done ++ [⟨.dialAddress k j a, .failed⟩] } r.1
+        [⟨.df, p, 0, [a], .cmd k⟩] []
+    | none => ({ ps with g := r.1, cmds := rest, done := ps.done ++ [⟨.dialAddress k j a, .silent⟩] }, [])
   | _ =>
     match startedConn r.2 with
-    | some c => { ps with g := r.1, cmds := rest, done := ps.done ++ [⟨.dialAddress k j a, .started c⟩] }
-    | none => { ps with g := r.1, cmds := rest, done := ps.done ++ [⟨.dialAddress k j a, .joined⟩] }
+    | some c => ({ ps with g := r.1, cmds := rest, done := ps.done ++ [⟨.dialAddress k j a, .started c⟩] }, [])
+    | none => ({ ps with g := r.1, cmds := rest, done := ps.done ++ [⟨.dialAddress k j a, .joined⟩] }, [])
 
 /-- `next()` takes the next command from the command channel. -/
 def runCmd (ps : PS) (choice : List Multiaddr) : PS × POut :=
@@ -255,7 +261,9 @@ def runCmd (ps : PS) (choice : List Multiaddr) : PS × POut :=
         { out := { (gstep ps.g (.dial p choice)).2 with
                    events := (afterDialPeer ps k j p rest (gstep ps.g (.dial p choice))).2 } })
     | .dialAddress k j a :: rest =>
-      (afterDialAddress ps k j a rest (gstep ps.g (.dialAddress a)), { out := (gstep ps.g (.dialAddress a)).2 })
+      ((afterDialAddress ps k j a rest (gstep ps.g (.dialAddress a))).1,
+        { out := { (gstep ps.g (.dialAddress a)).2 with
+                   events := (afterDialAddress ps k j a rest (gstep ps.g (.dialAddress a))).2 } })
 
 /-- The blocked `send().await` is polled again: with room in the channel it completes and the
 manager goes on with the remaining sends. -/
